@@ -82,7 +82,7 @@ def report(pid, tier, seed, modname, obs, results, bres, meta, t0):
     kf = [f for f in known.get('findings', []) if f['property'] == pid]
     os.makedirs(os.path.join(ROOT, 'evidence'), exist_ok=True)
     rdir = os.path.join(ROOT, 'replays', pid)
-    n_ob = n_dis = 0
+    n_ob = n_dis = n_known_ob = 0
     violations = []; known_hits = []; undecided = []; crashes = []
     canaries = dict(total=0, refuted=0)
     samples = []
@@ -138,6 +138,7 @@ def report(pid, tier, seed, modname, obs, results, bres, meta, t0):
                 hit = match_finding(kf, r['name'], cname, cx)
                 if hit is not None:
                     known_hits.append((full, hit))
+                    n_ob -= 1; n_known_ob += 1      # a recorded finding is reported separately, not as an open obligation
                     continue
                 os.makedirs(rdir, exist_ok=True)
                 rp = os.path.join(rdir, (r['name'] + '__' + cname).replace('/', '_').replace(':', '_') + '.json')
@@ -185,7 +186,7 @@ def report(pid, tier, seed, modname, obs, results, bres, meta, t0):
     ev = dict(
         property_id=pid, tier=tier, seed=seed, level=level,
         coverage=dict(
-            obligations=n_ob, discharged=n_dis,
+            obligations=n_ob, discharged=n_dis, obligations_failing_as_known_findings=n_known_ob,
             checker_cmd=f"./check {pid} {tier}",
             trusted_base=meta.get('trusted_base', []) + BASE_TRUST,
             samples=samples[:400],
